@@ -446,10 +446,22 @@ def session(argv):
         restored = show_cache(fs)
         s = None if start == "-" else dt.datetime(*json.loads(start))
         e = None if end == "-" else dt.datetime(*json.loads(end))
-        def search():
+        def search(**kw_):
             return [{"path": os.path.relpath(i.path, root), "t0": fields(i.times[0]), "t1": fields(i.times[1]),
-                     "attr": jsonable(i.attr)} for i in fs.find(s, e, no_files_error=False)]
+                     "attr": jsonable(i.attr)} for i in fs.find(s, e, no_files_error=False, **kw_)]
         found = search()
+        # the same object asked again with a white-list filter on its user placeholder (every file is cached by now):
+        # the answer must be the files of the unfiltered answer that carry that value
+        found_filtered = flt = None
+        if placeholder and found:
+            key = sorted(placeholder)[0]
+            vals = sorted({str(x["attr"].get(key)) for x in found if key in x["attr"]})
+            if vals:
+                flt = {key: vals[len(vals) // 2]}
+                try:
+                    found_filtered = search(filters=dict(flt))
+                except Exception as ex:  # noqa
+                    found_filtered = f"ERR {type(ex).__name__}: {str(ex)[:120]}"
         found_after = None
         if opts.get("then_cov"):
             fs.time_coverage = opts["then_cov"]
@@ -461,7 +473,8 @@ def session(argv):
             for k in ("key", "path"):
                 if isinstance(x.get(k), str):
                     x[k] = os.path.relpath(x[k], root)
-    print(json.dumps({"restored": restored, "found": found, "found_after": found_after, "final": final, "warned": len(msgs), "msg": msgs[:1]}))
+    print(json.dumps({"restored": restored, "found": found, "found_after": found_after, "found_filtered": found_filtered, "filter": flt,
+                      "final": final, "warned": len(msgs), "msg": msgs[:1]}))
     sys.stdout.flush()
     # normal interpreter exit: atexit runs FileSet.save_cache
 
